@@ -736,8 +736,7 @@ Proof.
 Qed.
 
 (* ------------------------------------------------------------------ *)
-(* What the decorated function does whenever the generated outer function
-   accepts the call *)
+(* The decorated function (current code) *)
 
 Definition body_outcome (r : body_result) : outcome :=
   match r with BReturned v => Returned v | BRaised e => Raised (RExn e) end.
@@ -748,39 +747,41 @@ Definition end_message (t : string) (lvl : list positive) (include_result : bool
   | BRaised e => end_failed t lvl (RExn e)
   end.
 
+Lemma sigbind_ok s c b : sigbind s c = Ok b -> bind s c = Ok b.
+Proof. unfold sigbind. now destruct (sigbind_quirk s c). Qed.
+
+Lemma sigbind_guarded s c : no_posonly_default_clash s c -> sigbind s c = bind s c.
+Proof.
+  unfold no_posonly_default_clash, sigbind. intros H.
+  destruct (sigbind_quirk s c); auto. now rewrite H.
+Qed.
+
 Lemma wrapper_accepted f o parent c b :
-  wf_sig (f_sig f) = true -> no_param_named_call (f_sig f) ->
-  bind (demote (f_sig f)) c = Ok b ->
+  sigbind (f_sig f) c = Ok b ->
   wrapper f o parent c =
     (body_outcome (f_body f b),
      [start_message (action_type_of f o) (match parent with Some l => l | None => [] end) (logged_args o b);
       end_message (action_type_of f o) (match parent with Some l => l | None => [] end)
                   (o_include_result o) (f_body f b)]).
 Proof.
-  intros Hwf Hc Hb. unfold wrapper. rewrite Hb.
-  apply memb_false in Hc. rewrite Hc.
-  rewrite (forward_getcallargs _ c b) by auto.
-  unfold call_fn. rewrite (forward_real _ c b) by auto.
+  intros Hb. unfold wrapper. rewrite Hb. unfold call_fn. rewrite (sigbind_ok _ _ _ Hb).
   unfold body_outcome, end_message. now destruct (f_body f b).
 Qed.
 
 Lemma wrapper_rejected f o parent c :
-  bind (demote (f_sig f)) c = TypeErr -> wrapper f o parent c = (Raised RTypeError, []).
+  sigbind (f_sig f) c = TypeErr -> wrapper f o parent c = (Raised RTypeError, []).
 Proof. intros H. unfold wrapper. now rewrite H. Qed.
 
 (* ------------------------------------------------------------------ *)
-(* C18: transparency *)
+(* C18: transparency.  No condition on the signature or on the names. *)
 
 Theorem C18_outcome_thm : forall (f : fn) (o : opts) (parent : option (list positive)) (c : fcall),
-  wf_sig (f_sig f) = true ->
-  no_param_named_call (f_sig f) ->
-  no_posonly_kw (f_sig f) c ->
+  no_posonly_default_clash (f_sig f) c ->
   fst (wrapper f o parent c) = call_fn f c.
 Proof.
-  intros f o parent c Hwf Hc Hg.
-  pose proof (bind_demote_same _ _ Hg) as E.
+  intros f o parent c Hg. pose proof (sigbind_guarded _ _ Hg) as E.
   unfold call_fn. destruct (bind (f_sig f) c) as [b|] eqn:B.
-  - rewrite (wrapper_accepted f o parent c b Hwf Hc E). cbn [fst]. now destruct (f_body f b).
+  - rewrite (wrapper_accepted f o parent c b E). cbn [fst]. now destruct (f_body f b).
   - now rewrite (wrapper_rejected f o parent c E).
 Qed.
 
@@ -831,9 +832,7 @@ Definition tail_fields (s : status) (t : string) (l : list positive) : message :
    (N_action_type, FType t); (N_task_level, FLevel l)].
 
 Theorem C18_logged_thm : forall (f : fn) (o : opts) (parent : option (list positive)) (c : fcall) (b : bindings),
-  wf_sig (f_sig f) = true ->
-  no_param_named_call (f_sig f) ->
-  no_posonly_kw (f_sig f) c ->
+  no_posonly_default_clash (f_sig f) c ->
   bind (f_sig f) c = Ok b ->
   let t := action_type_of f o in
   let lvl := match parent with Some l => l | None => [] end in
@@ -860,9 +859,9 @@ Theorem C18_logged_thm : forall (f : fn) (o : opts) (parent : option (list posit
                tail_fields Failed t (lvl ++ [2%positive])
            end.
 Proof.
-  intros f o parent c b Hwf Hc Hg B t lvl.
-  pose proof (bind_demote_same _ _ Hg) as E. rewrite B in E.
-  rewrite (wrapper_accepted f o parent c b Hwf Hc E). cbn [snd].
+  intros f o parent c b Hg B t lvl.
+  pose proof (sigbind_guarded _ _ Hg) as E. rewrite B in E.
+  rewrite (wrapper_accepted f o parent c b E). cbn [snd].
   eexists. eexists. split; [reflexivity|]. split.
   - intros k. rewrite start_message_spec. fold t. fold lvl.
     repeat (destruct (Pos.eqb k _); [reflexivity|]).
@@ -877,13 +876,13 @@ Theorem C18_type_default_thm : forall f o,
   o_action_type o = None -> action_type_of f o = (f_module f ++ "." ++ f_qualname f)%string.
 Proof. intros f o H. unfold action_type_of. now rewrite H. Qed.
 
-(* an argument list the function rejects: TypeError and nothing is logged *)
+(* an argument list the function rejects: TypeError from sig.bind, and nothing is logged *)
 Theorem C18_invalid_call_thm : forall f o parent c,
-  no_posonly_kw (f_sig f) c ->
   bind (f_sig f) c = TypeErr ->
   wrapper f o parent c = (Raised RTypeError, []).
 Proof.
-  intros f o parent c Hg B. apply wrapper_rejected. now rewrite bind_demote_same.
+  intros f o parent c B. apply wrapper_rejected. unfold sigbind.
+  now destruct (sigbind_quirk (f_sig f) c).
 Qed.
 
 (* include_args must name parameters: otherwise ValueError at decoration time *)
@@ -896,7 +895,7 @@ Proof.
 Qed.
 
 (* ------------------------------------------------------------------ *)
-(* The guards cannot be dropped *)
+(* The remaining guard cannot be dropped *)
 
 Definition nm_x : name := 15%positive.
 Definition nm_kw : name := 19%positive.
@@ -904,45 +903,52 @@ Definition nm_kw : name := 19%positive.
 Definition const_fn (s : fsig) (v : value) : fn := mkFn s "m" "f" (fun _ => BReturned v).
 Definition default_opts : opts := mkOpts None None true.
 
-(* def f(x, /, **kwargs): return 500      f(1, x=2) *)
-Theorem C18_posonly_refuted_thm :
+(* def f(x=101, /, **kwargs): return 500      f(x=2): Python binds x=101, kwargs={'x': 2};
+   Signature.bind raises TypeError *)
+Theorem C18_posonly_default_refuted_thm :
   exists (f : fn) (o : opts) (c : fcall),
-    wf_sig (f_sig f) = true /\ no_param_named_call (f_sig f) /\
-    posonly_kw_clash (f_sig f) c = true /\
+    wf_sig (f_sig f) = true /\
+    bind (f_sig f) c = Ok [(nm_x, BVal 101%Z); (nm_kw, BDict [(nm_x, 2%Z)])] /\
     call_fn f c = Returned 500%Z /\
     wrapper f o None c = (Raised RTypeError, []).
 Proof.
-  exists (const_fn [mkParam nm_x KPosOnly None; mkParam nm_kw KVarKw None] 500%Z), default_opts,
-         (mkCall [1%Z] [(nm_x, 2%Z)]).
-  repeat split; try (vm_compute; reflexivity).
-  vm_compute. intros [H|[H|[]]]; discriminate.
+  exists (const_fn [mkParam nm_x KPosOnly (Some 101%Z); mkParam nm_kw KVarKw None] 500%Z), default_opts,
+         (mkCall [] [(nm_x, 2%Z)]).
+  repeat split; vm_compute; reflexivity.
 Qed.
 
-(* def h(x, /): return x      h(x=1): the undecorated call is a TypeError, the decorated one returns *)
-Theorem C18_posonly_accepted_refuted_thm :
-  exists (f : fn) (o : opts) (c : fcall),
-    wf_sig (f_sig f) = true /\ no_param_named_call (f_sig f) /\
-    call_fn f c = Raised RTypeError /\
-    fst (wrapper f o None c) = Returned 1%Z /\
-    List.length (snd (wrapper f o None c)) = 2.
-Proof.
-  exists (mkFn [mkParam nm_x KPosOnly None] "m" "h"
-            (fun b => match lookup nm_x b with Some (BVal v) => BReturned v | _ => BReturned 0%Z end)),
-         default_opts, (mkCall [] [(nm_x, 1%Z)]).
-  repeat split; try (vm_compute; reflexivity).
-  vm_compute. intros [H|[]]; discriminate.
-Qed.
+(* ------------------------------------------------------------------ *)
+(* Regression: the three inputs on which the wrapper failed before cc84555 *)
 
-(* def f(_call): return 7      f(3) *)
-Theorem C18_param_call_refuted_thm :
-  exists (f : fn) (o : opts) (c : fcall),
-    wf_sig (f_sig f) = true /\ no_posonly_kw (f_sig f) c /\
-    call_fn f c = Returned 7%Z /\
-    wrapper f o None c = (Raised RTypeError, []).
-Proof.
-  exists (const_fn [mkParam N_underscore_call KNormal None] 7%Z), default_opts, (mkCall [3%Z] []).
-  repeat split; try (vm_compute; reflexivity).
-Qed.
+(* def f(x, /, **kwargs): return 500      f(1, x=2)   (was F3b) *)
+Example regression_posonly_kw_clash :
+  let f := const_fn [mkParam nm_x KPosOnly None; mkParam nm_kw KVarKw None] 500%Z in
+  let c := mkCall [1%Z] [(nm_x, 2%Z)] in
+  no_posonly_default_clash (f_sig f) c /\
+  call_fn f c = Returned 500%Z /\
+  fst (wrapper f default_opts None c) = Returned 500%Z /\
+  lookup nm_kw (hd [] (snd (wrapper f default_opts None c))) = Some (FArg (BDict [(nm_x, 2%Z)])).
+Proof. repeat split; try (vm_compute; reflexivity). intros H. vm_compute in H. discriminate. Qed.
+
+(* def h(x, /): return x      h(x=1)   (was F3c): TypeError on both sides, nothing logged *)
+Example regression_posonly_by_keyword :
+  let f := mkFn [mkParam nm_x KPosOnly None] "m" "h"
+             (fun b => match lookup nm_x b with Some (BVal v) => BReturned v | _ => BReturned 0%Z end) in
+  let c := mkCall [] [(nm_x, 1%Z)] in
+  no_posonly_default_clash (f_sig f) c /\
+  call_fn f c = Raised RTypeError /\
+  wrapper f default_opts None c = (Raised RTypeError, []).
+Proof. repeat split; vm_compute; reflexivity. Qed.
+
+(* def f(_call): return 7      f(3)   (was F3e) *)
+Example regression_param_named_call :
+  let f := const_fn [mkParam N_underscore_call KNormal None] 7%Z in
+  let c := mkCall [3%Z] [] in
+  no_posonly_default_clash (f_sig f) c /\
+  call_fn f c = Returned 7%Z /\
+  fst (wrapper f default_opts None c) = Returned 7%Z /\
+  lookup N_underscore_call (hd [] (snd (wrapper f default_opts None c))) = Some (FArg (BVal 3%Z)).
+Proof. repeat split; try (vm_compute; reflexivity). intros H. vm_compute in H. discriminate. Qed.
 
 (* ------------------------------------------------------------------ *)
 (* The hypotheses are satisfiable on a non-trivial case:
@@ -970,11 +976,15 @@ Definition ex_opts : opts :=
 Example ex_wf : wf_sig ex_sig = true.
 Proof. vm_compute. reflexivity. Qed.
 
-Example ex_no_call : no_param_named_call ex_sig.
-Proof. vm_compute. intuition discriminate. Qed.
+Example ex_guard : no_posonly_default_clash ex_sig ex_call.
+Proof. intros H. vm_compute in H. discriminate. Qed.
 
-Example ex_guard : no_posonly_kw ex_sig ex_call.
-Proof. intros k H. vm_compute in H. destruct H as [<-|[<-|[<-|[]]]]; reflexivity. Qed.
+(* the guard also holds, non-vacuously, when a keyword does name an unfilled positional-only
+   parameter but Python rejects the call as well: K().f(logger=1, result=5) *)
+Example ex_guard_quirk :
+  sigbind_quirk ex_sig (mkCall [900%Z] [(nm_logger, 1%Z); (N_result, 5%Z)]) = true /\
+  no_posonly_default_clash ex_sig (mkCall [900%Z] [(nm_logger, 1%Z); (N_result, 5%Z)]).
+Proof. split; [|intros _]; vm_compute; reflexivity. Qed.
 
 Example ex_decorate : decorate_ok ex_fn ex_opts = true.
 Proof. vm_compute. reflexivity. Qed.
@@ -997,3 +1007,57 @@ Proof. vm_compute. reflexivity. Qed.
 (* an invalid argument list for the same function: nothing is logged *)
 Example ex_invalid : wrapper ex_fn ex_opts None (mkCall [900%Z; 1%Z] []) = (Raised RTypeError, []).
 Proof. vm_compute. reflexivity. Qed.
+
+(* ================================================================== *)
+(* Legacy wrapper (before cc84555): its transparency needed two more guards, and
+   the three witnesses below refute it without them *)
+
+Lemma legacy_wrapper_accepted f o parent c b :
+  wf_sig (f_sig f) = true -> no_param_named_call (f_sig f) ->
+  bind (demote (f_sig f)) c = Ok b ->
+  wrapper_legacy f o parent c =
+    (body_outcome (f_body f b),
+     [start_message (action_type_of f o) (match parent with Some l => l | None => [] end) (logged_args o b);
+      end_message (action_type_of f o) (match parent with Some l => l | None => [] end)
+                  (o_include_result o) (f_body f b)]).
+Proof.
+  intros Hwf Hc Hb. unfold wrapper_legacy. rewrite Hb.
+  apply memb_false in Hc. rewrite Hc.
+  rewrite (forward_getcallargs _ c b) by auto.
+  unfold call_fn. rewrite (forward_real _ c b) by auto.
+  unfold body_outcome, end_message. now destruct (f_body f b).
+Qed.
+
+Theorem legacy_outcome : forall (f : fn) (o : opts) (parent : option (list positive)) (c : fcall),
+  wf_sig (f_sig f) = true ->
+  no_param_named_call (f_sig f) ->
+  no_posonly_kw (f_sig f) c ->
+  fst (wrapper_legacy f o parent c) = call_fn f c.
+Proof.
+  intros f o parent c Hwf Hc Hg.
+  pose proof (bind_demote_same _ _ Hg) as E.
+  unfold call_fn. destruct (bind (f_sig f) c) as [b|] eqn:B.
+  - rewrite (legacy_wrapper_accepted f o parent c b Hwf Hc E). cbn [fst]. now destruct (f_body f b).
+  - unfold wrapper_legacy. now rewrite E.
+Qed.
+
+(* F3b, F3c, F3e against the legacy wrapper *)
+Theorem C18_legacy_refuted_thm :
+  (exists f o c, wf_sig (f_sig f) = true /\ posonly_kw_clash (f_sig f) c = true /\
+     call_fn f c = Returned 500%Z /\ wrapper_legacy f o None c = (Raised RTypeError, [])) /\
+  (exists f o c, wf_sig (f_sig f) = true /\
+     call_fn f c = Raised RTypeError /\ fst (wrapper_legacy f o None c) = Returned 1%Z) /\
+  (exists f o c, wf_sig (f_sig f) = true /\
+     call_fn f c = Returned 7%Z /\ wrapper_legacy f o None c = (Raised RTypeError, [])).
+Proof.
+  split; [|split].
+  - exists (const_fn [mkParam nm_x KPosOnly None; mkParam nm_kw KVarKw None] 500%Z), default_opts,
+           (mkCall [1%Z] [(nm_x, 2%Z)]).
+    repeat split; vm_compute; reflexivity.
+  - exists (mkFn [mkParam nm_x KPosOnly None] "m" "h"
+              (fun b => match lookup nm_x b with Some (BVal v) => BReturned v | _ => BReturned 0%Z end)),
+           default_opts, (mkCall [] [(nm_x, 1%Z)]).
+    repeat split; vm_compute; reflexivity.
+  - exists (const_fn [mkParam N_underscore_call KNormal None] 7%Z), default_opts, (mkCall [3%Z] []).
+    repeat split; vm_compute; reflexivity.
+Qed.
